@@ -1,5 +1,6 @@
 import HW.Model.Ring
 import HW.Spec.Fifo
+import HW.Model.RingConc
 import Driver.Util
 /-
 stream ring
@@ -123,5 +124,67 @@ def ringSchedCase (inp impl : String) : CaseOut :=
               else s!"FAIL:C14 not linearizable in lock-acquisition order: implementation [{implEnd}] FIFO [{modelEnd}]",
       tags := [s!"threads{progs.length}", s!"size{size}"], nontrivial := sched.length ≥ 4 }
   | _, _ => bad "fields"
+
+/-
+stream ringfine (C14, fine granularity): the real ringbuffer.go under the scheduler shim with a scheduling point at EVERY mutex
+attempt (`lock=ok|busy`), atomic add inside the critical section (`add(d)=v`), release (`unlock`) and atomic load (`len=v`).
+The driver replays the implementation's step sequence in the fine-grained model `HW.RingConc` (the one `C14.linearizable` and
+`C14.concurrent_safety` are about): acquire / linearize / release / load, and compares every value on the way.
+  in   size=<n> progs=<op.op|op.op|…>
+  impl t<tid>:<label>;…;end:<results per thread>:rest=<drained content>
+-/
+def ringFineCase (inp impl : String) : CaseOut :=
+  let ws := words inp
+  match kv ws "progs" with
+  | none => bad "progs"
+  | some ps =>
+    let progsS : List (List String) := (ps.splitOn "|").map fun p => if p = "" then [] else p.splitOn "."
+    let progs : List (List (RingOp Nat)) := progsS.map fun p => p.filterMap fun w =>
+      match parseROp w with | some (.op o) => some o | _ => none
+    let parts := impl.splitOn ";"
+    let stepsS := parts.filter (fun x => !(x.startsWith "end:"))
+    let endS := (parts.find? (·.startsWith "end:")).getD ""
+    -- one implementation step replayed in the model; returns the model's rendering of that step
+    let advance (s : RingConc.St) (t : Nat) : RingConc.St := (RingConc.step s t).getD s
+    let isIdle (s : RingConc.St) (t : Nat) : Bool := match s.thr[t]? with | some .idle => true | _ => false
+    let isInCS (s : RingConc.St) (t : Nat) : Bool := match s.thr[t]? with | some (.inCS _) => true | _ => false
+    let replay (acc : RingConc.St × List String × List String) (stp : String) : RingConc.St × List String × List String :=
+      let (s, out, errs) := acc
+      match stp.splitOn ":" with
+      | [ts, lbl] =>
+        let t := (rest ts 1).toNat?.getD 0
+        let s := if isIdle s t then advance s t else s            -- the call of the next method
+        if lbl = "lock=ok" then
+          match RingConc.step s t with
+          | some s' => (s', out ++ [s!"t{t}:lock=ok"], errs)
+          | none => (s, out ++ [s!"t{t}:lock=BLOCKED"], errs ++ [s!"t{t} got the mutex while the model says it is held"])
+        else if lbl = "lock=busy" then
+          (s, out ++ [if s.lock.isSome && s.lock ≠ some t then s!"t{t}:lock=busy" else s!"t{t}:lock=FREE"],
+            if s.lock.isSome && s.lock ≠ some t then errs else errs ++ [s!"t{t} found the mutex busy while the model says it is free"])
+        else if lbl.startsWith "add(" then
+          let s' := advance s t
+          let d := ((lbl.splitOn "(").getD 1 "").splitOn ")" |>.headD ""
+          (s', out ++ [s!"t{t}:add({d})={s'.cnt}"], errs)
+        else if lbl = "unlock" then
+          let s1 := if isInCS s t then advance s t else s          -- the empty case: no counter update, linearized here
+          (advance s1 t, out ++ [s!"t{t}:unlock"], errs)
+        else if lbl.startsWith "len=" then
+          let s' := advance s t
+          (s', out ++ [s!"t{t}:len={s.cnt}"], errs)
+        else (s, out ++ [s!"t{t}:?{lbl}"], errs ++ [s!"unknown step {lbl}"])
+      | _ => (s, out ++ ["?"], errs ++ ["malformed step"])
+    let (s, out, errs) := stepsS.foldl replay (RingConc.init progs, [], [])
+    let res := String.intercalate "|" (s.results.map fun r => String.intercalate "," (r.map showOut))
+    let model := String.intercalate ";" (out ++ [s!"end:{res}:rest={String.intercalate "." (s.q.map toString)}"])
+    -- spec: Len is never negative; the results are those of the FIFO in linearization order (the model's `lin`)
+    let negLen := stepsS.any fun x => (x.splitOn "len=-").length > 1
+    let modelEnd := s!"end:{res}:rest={String.intercalate "." (s.q.map toString)}"
+    let spec :=
+      if negLen then "FAIL:C14 Len() returned a negative number (the counter was seen between two updates of one operation)"
+      else if (impl.splitOn "PANIC").length > 1 then "FAIL:C14 a ring operation panicked under concurrency"
+      else if !errs.isEmpty then "FAIL:C14 mutual exclusion of the critical sections: " ++ String.intercalate " | " errs
+      else if endS ≠ modelEnd then s!"FAIL:C14 not linearizable: implementation [{endS}] model [{modelEnd}]"
+      else "ok"
+    { model := model, spec := spec, tags := [s!"threads{progs.length}", "fine-grained"], nontrivial := stepsS.length ≥ 6 }
 
 end Driver
